@@ -127,29 +127,21 @@ Definition dec_dict_page (cd : coldesc) (codec : Z) (h : dictph) (usize : N) (pa
   | None => RBad "dictionary page: too short for num_values"
   end.
 
+(* definition levels of a required column are not stored: every level is the maximum (0) *)
 Definition dec_data_v1 (strict : bool) (cd : coldesc) (codec : Z) (dict : option (list value)) (h : dph)
   (usize : N) (payload : bytes) : rs pcontent :=
   let! raw := inflate codec usize payload in
   let! _ := guard (lenN raw =? usize) "data page: uncompressed_page_size differs from the data" in
   let! n := z2n "data page: negative num_values" (d_nvals h) in
-  if cd_maxdef cd =? 0 then
-    let! vs := dec_values strict cd dict (d_enc h) n raw in
-    ROk (CData n 0 (map Some vs))
-  else
-    if negb (d_dle h =? E_RLE)%Z then
-      (if (d_dle h =? E_BIT_PACKED)%Z then RUns "BIT_PACKED definition levels (deprecated)" else RBad "unknown level encoding")
-    else
-    match hyb_dec_len strict (level_width (cd_maxdef cd)) n raw with
-    | None => RBad "data page: definition levels malformed"
-    | Some (lv, rest) =>
-      let! _ := guard (forallb (fun l => l <=? cd_maxdef cd) lv) "definition level above the maximum" in
-      let k := count_def (cd_maxdef cd) lv in
-      let! vs := dec_values strict cd dict (d_enc h) k rest in
-      match cells_of (cd_maxdef cd) lv vs [] with
-      | Some cs => ROk (CData n (n - k) cs)
-      | None => RBad "data page: values do not match the definition levels"
-      end
-    end.
+  let! lr := (if cd_maxdef cd =? 0 then ROk (repN (cd_maxdef cd) n [], raw)
+              else if negb (d_dle h =? E_RLE)%Z then
+                (if (d_dle h =? E_BIT_PACKED)%Z then RUns "BIT_PACKED definition levels (deprecated)" else RBad "unknown level encoding")
+              else of_opt "data page: definition levels malformed" (hyb_dec_len strict (level_width (cd_maxdef cd)) n raw)) in
+  let! _ := guard (forallb (fun l => l <=? cd_maxdef cd) (fst lr)) "definition level above the maximum" in
+  let k := count_def (cd_maxdef cd) (fst lr) in
+  let! vs := dec_values strict cd dict (d_enc h) k (snd lr) in
+  let! cs := of_opt "data page: values do not match the definition levels" (cells_of (cd_maxdef cd) (fst lr) vs []) in
+  ROk (CData n (n - k) cs).
 
 Definition dec_data_v2 (strict : bool) (cd : coldesc) (codec : Z) (dict : option (list value)) (h : dph2)
   (usize : N) (payload : bytes) : rs pcontent :=
@@ -167,24 +159,20 @@ Definition dec_data_v2 (strict : bool) (cd : coldesc) (codec : Z) (dict : option
   let comp := match d2_iscomp h with Some false => false | _ => true end in
   let! raw := (if comp then inflate codec (usize - dl) body else ROk body) in
   let! _ := guard (lenN raw + dl =? usize) "data page v2: uncompressed_page_size differs from the data" in
-  if cd_maxdef cd =? 0 then
-    let! _ := guard (nn =? 0) "data page v2: num_nulls > 0 in a required column" in
-    let! _ := guard (dl =? 0) "data page v2: definition levels in a required column" in
-    let! vs := dec_values strict cd dict (d2_enc h) n raw in
-    ROk (CData n 0 (map Some vs))
-  else
-    match hyb_dec strict (level_width (cd_maxdef cd)) n lvb with
-    | None => RBad "data page v2: definition levels malformed"
-    | Some (lv, _) =>
-      let! _ := guard (forallb (fun l => l <=? cd_maxdef cd) lv) "definition level above the maximum" in
-      let k := count_def (cd_maxdef cd) lv in
-      let! _ := guard (n - k =? nn) "data page v2: num_nulls differs from the definition levels" in
-      let! vs := dec_values strict cd dict (d2_enc h) k raw in
-      match cells_of (cd_maxdef cd) lv vs [] with
-      | Some cs => ROk (CData n nn cs)
-      | None => RBad "data page v2: values do not match the definition levels"
-      end
-    end.
+  let! lv := (if cd_maxdef cd =? 0 then
+                let! _ := guard (dl =? 0) "data page v2: definition levels in a required column" in
+                ROk (repN (cd_maxdef cd) n [])
+              else
+                match hyb_dec strict (level_width (cd_maxdef cd)) n lvb with
+                | Some (lv, _) => ROk lv
+                | None => RBad "data page v2: definition levels malformed"
+                end) in
+  let! _ := guard (forallb (fun l => l <=? cd_maxdef cd) lv) "definition level above the maximum" in
+  let k := count_def (cd_maxdef cd) lv in
+  let! _ := guard (n - k =? nn) "data page v2: num_nulls differs from the definition levels" in
+  let! vs := dec_values strict cd dict (d2_enc h) k raw in
+  let! cs := of_opt "data page v2: values do not match the definition levels" (cells_of (cd_maxdef cd) lv vs []) in
+  ROk (CData n nn cs).
 
 Definition dec_page (strict : bool) (cd : coldesc) (codec : Z) (dict : option (list value)) (h : phdr) (payload : bytes)
   : rs pcontent :=
